@@ -11,4 +11,6 @@ pub mod c11;
 pub mod c12;
 pub mod c13;
 pub mod c18;
+#[cfg(servlin_verif)]
+pub mod c19;
 pub mod httpgen;
